@@ -6,6 +6,7 @@ The specification side (`flatConflict`) works on the flat list of accepted
 endpoints and never looks at the trie.
 -/
 import Driver.RouterCommon
+import DropshotModel.Register
 
 open Dropshot Dropshot.Proto Dropshot.RouterCommon
 
@@ -52,6 +53,110 @@ def flatConflict (acc : List (Endpoint SemVer)) (e : Endpoint SemVer) : Bool :=
   acc.any fun e' =>
     pathClash e'.path e.path ||
     (e'.path == e.path && normMethod e'.method == normMethod e.method && shareVersion e'.versions e.versions)
+
+
+/-! ### `pv`: tag policy and parameter validation -/
+
+mutual
+  /-- Shape grammar: `t<inst><0|1>`, `S<k>(s,s,…)`, `R<name>`, `A(s)`, `X`. -/
+  partial def parseShape (cs : List Char) : Option (Shape × List Char) :=
+    match cs with
+    | 't' :: i :: p :: rest =>
+      let inst : Option Inst := match i with
+        | 'b' => some .bool | 'n' => some .number | 's' => some .string | 'i' => some .integer
+        | 'a' => some .array | 'o' => some .object | 'z' => some .null | _ => none
+      inst.map fun t => (.typed t (p == '1'), rest)
+    | 'X' :: rest => some (.other, rest)
+    | 'R' :: rest =>
+      let (nm, rest') := rest.span (fun c => c.isAlphanum)
+      some (.ref (String.ofList nm), rest')
+    | 'A' :: '(' :: rest =>
+      match parseShape rest with
+      | some (item, ')' :: rest') => some (.arrayOf item, rest')
+      | _ => none
+    | 'S' :: k :: '(' :: rest =>
+      let kind : Option SubKind := match k with
+        | 'a' => some .allOf | 'y' => some .anyOf | 'o' => some .oneOf | _ => none
+      match kind, parseShapes rest with
+      | some kd, some (subs, ')' :: rest') => some (.sub kd subs, rest')
+      | _, _ => none
+    | _ => none
+  partial def parseShapes (cs : List Char) : Option (List Shape × List Char) :=
+    match parseShape cs with
+    | none => none
+    | some (s, ',' :: rest) =>
+      match parseShapes rest with
+      | some (ss, rest') => some (s :: ss, rest')
+      | none => none
+    | some (s, rest) => some ([s], rest)
+end
+
+def shapeOf (s : String) : Option Shape :=
+  match parseShape s.toList with
+  | some (sh, []) => some sh
+  | _ => none
+
+def listOf (s : String) : List String := if s = "-" then [] else s.splitOn ","
+
+def errName : RegisterErr → String
+  | .tagAtLeastOne => "tagAtLeastOne" | .tagExactlyOne => "tagExactlyOne" | .tagInvalid => "tagInvalid"
+  | .pathParamsMismatch => "pathParamsMismatch" | .bothPathAndQuery => "bothPathAndQuery"
+  | .notScalar => "notScalar" | .notStringArray => "notStringArray"
+
+def handlePv (id : String) (rest : List String) (impl : List String) : String :=
+  match rest, impl with
+  | pol :: ao :: defined :: vis :: tags :: ph :: nd :: more, [i] =>
+    match nd.toNat? with
+    | none => bad id "ndeps"
+    | some nd =>
+      let depToks := more.take (max nd 1)
+      let more := more.drop (max nd 1)
+      match more with
+      | np :: ptoks =>
+        let deps : Option Deps := if nd == 0 then some [] else depToks.mapM fun t =>
+          match t.splitOn "=" with
+          | [n, s] => (shapeOf s).map fun sh => (n, sh)
+          | _ => none
+        let np := np.toNat?.getD 0
+        let params : Option (List Param) := if np == 0 then some [] else (ptoks.take np).mapM fun t =>
+          match t.splitOn ":" with
+          | [l, n, s] => (shapeOf s).map fun sh =>
+              { loc := if l == "p" then .path else .query, name := n, shape := sh }
+          | _ => none
+        let policy : TagPolicy := if pol == "a" then .atLeastOne else if pol == "e" then .exactlyOne else .any
+        match deps, params, (unhex ph).bind utf8String with
+        | some deps, some params, some path =>
+          match routeSegs path with
+          | .error _ => bad id "template"
+          | .ok tpl =>
+            let cfg : TagConfig := { policy, allowOther := ao == "1", defined := listOf defined }
+            let visible := vis == "1"
+            let tagl := listOf tags
+            let m := validateEndpoint cfg visible tagl tpl deps params
+            let model := match m with | none => "ok" | some e => "err:" ++ errName e
+            -- specification: refused iff one of the listed conditions holds (no ordering, no kinds)
+            let tagBad := visible && ((policy == .atLeastOne && tagl.isEmpty) ||
+              (policy == .exactlyOne && tagl.length != 1) ||
+              (ao != "1" && tagl.any fun t => !(listOf defined).contains t))
+            let vars := templateVars tpl
+            let declared := (params.filter (·.loc == .path)).map (·.name)
+            let setBad := !(vars.all (fun v => declared.contains v.1) && declared.all (fun d => vars.any (·.1 == d)))
+            let clash := params.any fun p => p.loc == .query && vars.any (·.1 == p.name)
+            let typeBad := params.any fun p =>
+              match p.loc with
+              | .query => !typeIsScalar deps p.shape
+              | .path => match vars.reverse.find? (·.1 == p.name) with
+                | some (_, true) => !typeIsStringArray deps p.shape
+                | some (_, false) => !typeIsScalar deps p.shape
+                | none => false
+              | .body => false
+            let shouldRefuse := tagBad || setBad || clash || typeBad
+            let specOk := shouldRefuse == (i != "ok")
+            let cls := s!"pv-{match m with | none => "ok" | some e => errName e}"
+            out id (model == i) (b2s specOk) cls "-" model
+        | _, _, _ => bad id "parse-pv"
+      | [] => bad id "parse-pv-params"
+  | _, _ => bad id "parse-pv-head"
 
 def handle (line : String) : String :=
   let fs := fields line
@@ -101,6 +206,7 @@ def handle (line : String) : String :=
         out id (model == i) (b2s specOk) cls known model
       | _, _ => bad id "parse-request"
     | _, _ => bad id "parse-table"
+  | "pv" :: id :: rest => handlePv id rest impl
   | _ => bad "?" "unknown-stream"
 
 end Dropshot.DriverC02
